@@ -126,6 +126,51 @@ def f0():
 """ % s}, ["subv", "inner", "h"]
 
 
+def T_imports_in_bodies(s):
+    # the imports sit in the bodies of the functions that use them (modules that are slow to import, optional dependencies)
+    return {"__init__": "from . import sub\n",
+            "sub": "from ddsverif_rt import term\nSUBV = %(subv)d\n\ndef inner():\n    return term('inner#%(inner)d', SUBV)\n\ndef h():\n    return term('h#%(h)d', inner())\n" % s,
+            "main": HEAD + """
+def f_attr():
+    import %(pkg)s.sub
+    return %(pkg)s.sub.h()
+
+def f_alias():
+    import %(pkg)s.sub as s2
+    return term('alias', s2.h(), s2.SUBV)
+
+def f_fromas():
+    from %(pkg)s.sub import h as hh, SUBV as sv
+    return term('fromas', hh(), sv)
+
+def f_frompkg():
+    from %(pkg)s import sub
+    return term('frompkg', sub.h(), sub.SUBV)
+
+def f_relative():
+    from . import sub as s4
+    from .sub import inner
+    return term('relative', s4.h(), inner())
+
+def f_nested():
+    def g():
+        from %(pkg)s.sub import h
+        return h()
+    return term('nested', g())
+
+def leaf():
+    return term('leaf#%(inner)d')
+
+def f_keep():
+    from dds import keep as kp
+    return term('keep', kp('/x/inner', leaf))
+
+def f0():
+    return term('f0', dds.keep('/x/a', f_attr), dds.keep('/x/b', f_alias), dds.keep('/x/c', f_fromas), dds.keep('/x/d', f_frompkg),
+                dds.keep('/x/e', f_relative), dds.keep('/x/f', f_nested), dds.keep('/x/g', f_keep))
+""" % s}, ["subv", "inner", "h"]
+
+
 def T_fun_in_variable(s):
     return {"main": HEAD + """
 def h():
@@ -556,7 +601,7 @@ def f0():
 # explicit refusals of dds (DDSException with one of these codes): the construct is outside the supported subset
 REFUSALS = ("TYPE_NOT_SUPPORTED", "CONSTRUCT_NOT_SUPPORTED", "UNSUPPORTED_CALLABLE_TYPE", "AUTHORIZED_TYPE_NOT_UNDERSTOOD")
 
-TEMPLATES = [T_class_fresh, T_class_object_first, T_inheritance, T_staticmethod, T_import_forms, T_fun_in_variable,
+TEMPLATES = [T_class_fresh, T_class_object_first, T_inheritance, T_staticmethod, T_import_forms, T_imports_in_bodies, T_fun_in_variable,
              T_nested_and_comprehension, T_default_from_variable, T_method_calls_function, T_data_function_chain,
              T_class_attribute_from_variable, T_init_calls_function, T_from_import_variable, T_class_in_submodule,
              T_generator_and_conditional_expression, T_function_as_default_argument, T_reexport_and_relative_imports,
